@@ -252,8 +252,8 @@ CHECKS['C08'] = {
 CHECKS['C10'] = {
     'level': 'exploration',
     'jobs': [
-        {'engine': 'prodseq', 'variant': 'san', 'profile': 'default', 'kv': {'inst': 'all'}, 'quick': 2400, 'thorough': 18000, 'avg_case_s': 0.15},
-        {'engine': 'prodseq', 'variant': 'san', 'profile': 'reduce', 'kv': {'inst': 'all'}, 'quick': 1200, 'thorough': 6000, 'avg_case_s': 0.15},
+        {'engine': 'prodseq', 'variant': 'san', 'profile': 'default', 'kv': {'inst': 'all'}, 'quick': 2400, 'thorough': 9600, 'avg_case_s': 0.15},
+        {'engine': 'prodseq', 'variant': 'san', 'profile': 'reduce', 'kv': {'inst': 'all'}, 'quick': 1200, 'thorough': 4800, 'avg_case_s': 0.15},
     ],
     'prefixes': ['C10.'],
     'required_counters': ['reduction_checks', 'image_checks', 'answer_checks', 'lp_image_checks', 'enum_points', 'reduce.effective.smash', 'reduce.effective.constraints',
